@@ -14,6 +14,8 @@ pub mod webanno;
 pub mod concurrent;
 pub mod untrusted;
 pub mod query;
+pub mod query2;
+pub mod iterapi;
 
 pub fn run(family: &str, opts: &Opts) -> Option<Report> {
     // "family@m<interval>s<0|1>" runs the family under a store configuration variant
